@@ -51,6 +51,7 @@ var c13CfgOps = []cfgOp{{k: "D", lo: 0x400, hi: 0x4ff, x: "w"}, {k: "D", lo: 0x3
 var c13Sym4Ops = []cfgOp{{k: "Y", v: []rune("<!--"), typ: tokenizers.Symbol}, {k: "Y", v: []rune("=:=:"), typ: tokenizers.Symbol}, {k: "Y", v: []rune("->>>>"), typ: tokenizers.Symbol}}
 var c13FoldOps = []cfgOp{{k: "W", lo: 0x400, hi: 0x4ff, x: "0"}, {k: "W", lo: 0x370, hi: 0x3ff, x: "1"}, {k: "W", lo: 0x500, hi: 0x52f, x: "1"}}
 var c13EdgeOps = []cfgOp{{k: "W", lo: 0x3b1, hi: 0x3c9, x: "1"}, {k: "W", lo: 0x3c9, hi: 0x3c9, x: "0"}, {k: "W", lo: 0x430, hi: 0x44f, x: "0"}, {k: "W", lo: 0x42f, hi: 0x430, x: "1"}}
+var c13ClearOps = []cfgOp{{k: "WC"}, {k: "W", lo: 'a', hi: 'z', x: "1"}, {k: "W", lo: 0x3b1, hi: 0x3c9, x: "1"}, {k: "W", lo: 0x3c9, hi: 0x3c9, x: "0"}, {k: "W", lo: 0x430, hi: 0x44f, x: "1"}, {k: "W", lo: 0x44f, hi: 0x460, x: "0"}, {k: "W", lo: 0x420, hi: 0x430, x: "0"}}
 var c13SymOps = []cfgOp{{k: "Y", v: []rune("=:="), typ: tokenizers.Symbol}, {k: "Y", v: []rune("..."), typ: tokenizers.Symbol}}
 var wordStartCfg = []rune("abzAZxy_éÀÿЖцλΔ")
 
@@ -240,6 +241,10 @@ func runLexCase(c *Ctx, kind string, lexs []lexeme) {
 		// a removal that begins exactly at the last character of an enabled block, an enabling that ends at the first of a disabled one
 		op = tokcLine("e", 0, c13EdgeOps, input)
 		ts, st = tokenizeCfg("e", 0, c13EdgeOps, input)
+	} else if kind == "E5" {
+		// the word characters cleared and rebuilt block by block, removals that touch a block at its first / last character only
+		op = tokcLine("e", 0, c13ClearOps, input)
+		ts, st = tokenizeCfg("e", 0, c13ClearOps, input)
 	} else if kind == "E3" {
 		// word characters re-configured in three steps: a block disabled, an adjacent block (re-)enabled afterwards
 		op = tokcLine("e", 0, c13FoldOps, input)
@@ -377,6 +382,9 @@ func propC13(c *Ctx) {
 	runLexCase(c, "E4", []lexeme{{"xαβ", W}, {"ω", S}, {"γ", S}})
 	runLexCase(c, "E4", []lexeme{{"aψ", W}, {"ω", S}, {" ", Sp}, {"bω"[:1], W}, {"ω", S}})
 	runLexCase(c, "E4", []lexeme{{"xЯа", W}, {"б", S}, {"в", S}, {" ", Sp}, {"yа", W}})
+	runLexCase(c, "E5", []lexeme{{"xαβ", W}, {"ω", S}, {"γ", S}})
+	runLexCase(c, "E5", []lexeme{{"aψ", W}, {"ω", S}, {" ", Sp}, {"bб", W}, {"я", S}, {"а", S}})
+	runLexCase(c, "E5", []lexeme{{"xюэ", W}, {"я", S}, {" ", Sp}, {"yб", W}, {"а", S}})
 	runLexCase(c, "E3", []lexeme{{"total", W}, {"Ж", S}, {"xλ1", W}})
 	runLexCase(c, "E3", []lexeme{{"aλ", W}, {" ", Sp}, {"bЖ"[:1], W}, {"Ж", S}, {"ц", S}, {" ", Sp}, {"cԀ", W}})
 	runLexCase(c, "E3", []lexeme{{"xλ", W}, {"Ѐ", S}, {"y", W}})
